@@ -184,3 +184,89 @@ def adapt_search(tier, seed):
                   open(path, "w"), indent=1)
         out["violations"] = [path]
     return out
+
+
+# ------------------------------------------------------------------------------------------------------------------
+# which offers apply: mro_distance_to_protocol and _get_applicable_offers
+# ------------------------------------------------------------------------------------------------------------------
+@register
+class MroDistance(Contract):
+    """mro_distance_to_protocol(from_type, to_protocol): None iff the type does not provide the protocol NOW, else the number
+    of leading superclasses (MRO order, the type itself excluded) that still provide it.  'iff there is a sequence of applicable
+    offers': whether an offer applies is decided from the class relations as they are at the time of the call -- a class can be
+    registered with an ABC / Interface at any moment -- so the answer must not be memoised."""
+    path = PATH
+    qualname = "AdaptationManager.mro_distance_to_protocol"
+    properties = ("C17",)
+    class_paths = (PATH,)
+    assumptions = ("A-PY", "provides_protocol(type, protocol) is issubclass as it is at the time of each call (an uninterpreted relation here)",
+                   "inspect.getmro(type): a finite sequence starting with the type itself")
+
+    def configure(self, cx, I, ov):
+        cx.const("None")
+        self.MRO = z3.Function("mro", Val, SeqV)
+
+        def builtin_hook(I2, name, args, kwargs, st, k):
+            if name == "inspect.getmro":
+                c_ = as_val(I2.cx, args[0], st)
+                r = VRef(I2.cx.new_oid())
+                return k(r, st.put(r.oid, HObj("tuple", self.MRO(c_))).assume(z3.Length(self.MRO(c_)) >= 1, self.MRO(c_)[0] == c_))
+            return None
+        cx.builtin_hook = builtin_hook
+        orig_ma = I.bi.module_attr
+        I.bi.module_attr = lambda mod, name: VFunc("builtin", name="inspect.getmro") if (mod, name) == ("inspect", "getmro") else orig_ma(mod, name)
+
+        def call_hook(I2, fv, args, kwargs, st, k):
+            if isinstance(fv, VFunc) and fv.kind == "unbound_repo" and fv.name == "provides_protocol" and len(args) == 2:
+                return k(VBool(provides(as_val(I2.cx, args[0], st), as_val(I2.cx, args[1], st))), st.gset("asked", st.ghost.get("asked", 0) + 1))
+            return None
+        cx.call_hook = call_hook
+        from vc.pyvc import loops
+
+        def inv(i, view, st):
+            S = z3.Extract(self.MRO(self.from_type), 1, z3.Length(self.MRO(self.from_type)) - 1)
+            j = z3.Int("j!md")
+            d = st.env["distance"]
+            return [("distance-counts-the-supertypes-so-far-all-of-which-provide-the-protocol", z3.And(
+                d.t == i, z3.ForAll([j], z3.Implies(z3.And(0 <= j, j < i), provides(S[j], self.to_protocol)))))]
+        cx.on_loop = loops.make_hook({0: loops.LoopSpec("for t in supertypes", [], inv)})
+        orig_inv = inv
+
+    def setup(self, cx, I, ov):
+        self.from_type, self.to_protocol = z3.Consts("from_type to_protocol", Val)
+        st = St()
+        return st, [VElem(self.from_type), VElem(self.to_protocol)], {}, dict(witness={"provides now": provides(self.from_type, self.to_protocol)},
+                                                                                   concretise=lambda m: dict(harness="adaptation", family="late_registration"))
+
+    def post(self, cx, I, ov, info, kind, payload, st):
+        from vc.pyvc import source
+        if kind == "raise":
+            return [("exc-free", z3.BoolVal(False))]
+        fn = source.get_function(self.path, self.qualname)[0]
+        decos = [ast_unparse(d) for d in fn.decorator_list]
+        S = z3.Extract(self.MRO(self.from_type), 1, z3.Length(self.MRO(self.from_type)) - 1)
+        p0 = provides(self.from_type, self.to_protocol)
+        out = [("post:the-answer-is-recomputed-from-the-current-class-relations-at-every-call-(no-memoisation)", z3.BoolVal(decos == ["staticmethod"]),
+                dict(decorators=str(decos))),
+               ("post:the-protocol-test-is-actually-made", z3.BoolVal(st.ghost.get("asked", 0) >= 1))]
+        if isinstance(payload, VNone):
+            out.append(("post:None-iff-the-type-does-not-provide-the-protocol", z3.Not(p0)))
+            return out
+        d = payload.t if isinstance(payload, VInt) else None
+        if d is None:
+            return out + [("post:distance-is-an-integer-or-None", z3.BoolVal(False))]
+        j = z3.Int("j!mdp")
+        n = z3.Length(S)
+        out += [("post:None-iff-the-type-does-not-provide-the-protocol", p0),
+                ("post:distance-is-the-number-of-leading-supertypes-that-provide-the-protocol", z3.And(
+                    0 <= d, d <= n, z3.ForAll([j], z3.Implies(z3.And(0 <= j, j < d), provides(S[j], self.to_protocol))),
+                    z3.Implies(d < n, z3.Not(provides(S[d], self.to_protocol)))))]
+        return out
+
+    def covers(self, cx, ov, info):
+        return [("provides", lambda k, p, s: k == "return" and isinstance(p, VInt)), ("does-not-provide", lambda k, p, s: k == "return" and isinstance(p, VNone))]
+
+
+def ast_unparse(node):
+    import ast
+    return ast.unparse(node)
